@@ -123,3 +123,6 @@ broadcast use ax::axiom_question_mark_from_details;
 // A4: endianness helpers on a little-endian target.
 pub assume_specification[u64::to_le](x: u64) -> (r: u64) ensures r == x;
 pub assume_specification[u64::from_le](x: u64) -> (r: u64) ensures r == x;
+// A6: std integer helpers without a vstd specification (doc contract of core::num)
+pub assume_specification[<i64>::checked_neg](x: i64) -> (r: Option<i64>)
+    ensures r == (if x == i64::MIN { None::<i64> } else { Some((-x) as i64) });
